@@ -33,9 +33,9 @@ theorem loc_errShape (op : Op) (next : Nat) (t : T) : ErrShape t (op.loc next t)
       repeat' split
       all_goals first | exact errShape_err _ _ _ | exact errShape_ok _ _ _ _ _
   | unrollChildren p =>
-    simp only [Op.loc, unrollChildrenLoc]; split
-    · exact errShape_err _ _ _
-    · exact errShape_ok _ _ _ _ _
+    simp only [Op.loc, unrollChildrenLoc]
+    repeat' split
+    all_goals first | exact errShape_err _ _ _ | exact errShape_ok _ _ _ _ _
   | split p idx =>
     simp only [Op.loc, splitLoc]
     repeat' split
